@@ -3,14 +3,14 @@ from lib import hexs
 
 MODULE = "DtailModel.Props.C03"
 # translated packages (tie G) this property's theorems rest on
-GEN_UNITS = ("Regex", "Grep")
+GEN_UNITS = ("Regex", "Grep", "Fs")
 GROUPS = ["C03"]
 BINS = True
 BUDGET = {"quick": 3000, "thorough": 60000}
 LEVEL_TEXT = ("Lean theorem C03_ctx: the server's context automaton equals a block-wise specification of grep "
               "semantics for every line sequence, selection and before/after/max (unbounded), plus C03_filter / "
               "C03_partial for the whole filter with regex flags; tied to the code by a differential run of the real "
-              "reader+filter and the dgrep binary, selection bits supplied by Go's regexp; tie G on internal/regex (Match_spec, see C12) and on the context filter itself: filterWithLContext / filterLineWithLContext / lContextNotMatched / lContextProcessBefore / lContextProcessMaxCount of readfilelcontext.go are translated on every run (ls.beforeBuf as a bounded queue, sends on lines kept, context never cancelled) and C03_generated_filter_is_grep proves that the translated filter returns normally and sends exactly the block specification, for every line list, verdicts and before/after/max; the driver runs the translated filter on every c03.grep case with a context option; long sparse files with --before up to 1000; --max alone over hits more than 100 lines apart and over more than 100 hits")
+              "reader+filter and the dgrep binary, selection bits supplied by Go's regexp; tie G on internal/regex (Match_spec, see C12) and on the context filter itself: filterWithLContext / filterLineWithLContext / lContextNotMatched / lContextProcessBefore / lContextProcessMaxCount of readfilelcontext.go are translated on every run (ls.beforeBuf as a bounded queue, sends on lines kept, context never cancelled) and C03_generated_filter_is_grep proves that the translated filter returns normally and sends exactly the block specification, for every line list, verdicts and before/after/max; the driver runs the translated filter on every c03.grep case with a context option, and the translated filterWithoutLContext (unit Fs, with transmittable and the statistics ring; C03_generated_plain_filter: exactly the selected lines with their positions as running numbers) on every case without; long sparse files with --before up to 1000; --max alone over hits more than 100 lines apart and over more than 100 hits")
 TRUSTED = ["Lean 4 kernel", "axioms: propext, Quot.sound, Classical.choice (at most)", "fact extractor (noop pattern list, flag names)",
            "overlay harness + dtmodel driver + this diff", "Go->Lean translator (unit Grep) with its prelude GoRT: a buffered channel only one goroutine touches is a bounded queue, select on it is decided by its state, the statistics calls and the line numbers are outside the translation", "modelled not verified: Go regexp (RE2) matching — an abstract predicate in every theorem"]
 ASSUMPTIONS = ["the regexp engine is a deterministic function of the bytes it is given"]
